@@ -83,18 +83,27 @@ def scenario(e, cfg):
         try:
             filler = fillerlab.open_filler(d, None if concrete else E)
             ctx = filler.__enter__()
+            escaped = None
             for i in range(n):
                 md = MD[e.choice(f"md{i}", 3)] if (cfg["md"] and abs(i - p) <= 1) else None
                 if i == p:
                     try:
                         ctx.write_example(values=bad(i, attr_index, kind), split="train", custom_metadata=(dict(md) if md else None))
                         accepted.append((i, "bad"))
-                    except Exception:  # noqa: BLE001 - the writer rejected the write
+                    except Exception as rejection:  # noqa: BLE001 - the writer rejected the write
                         rejected_p = True
+                        # the caller either skips the bad example and goes on, or lets the error end the `with` block
+                        if not cfg["md"] and e.choice("error_leaves_the_with_block", 2):
+                            escaped = rejection
+                            what += " (the error leaves the filler's with-block)"
+                            break
                 else:
                     ctx.write_example(values=good(i), split="train", custom_metadata=(dict(md) if md else None))
                     accepted.append((i, "good"))
-            filler.__exit__(None, None, None)
+            if escaped is not None:
+                filler.__exit__(type(escaped), escaped, escaped.__traceback__)
+            else:
+                filler.__exit__(None, None, None)
         except CexFound:
             raise
         except Exception as exc:  # noqa: BLE001
@@ -132,15 +141,22 @@ def scenario(e, cfg):
 
 
 DTYPES = ["bool", "int8", "uint8", "int16", "uint16", "int32", "uint32", "int64", "uint64", "float16", "float32", "float64",
-          "str", "bytes"]
+          "str", "bytes", "str[2]", "bytes[2]"]
 
 
 def declaration_case(ft, dtype):
     """A well-typed write for an attribute DECLARED with `dtype`: either the format refuses it at write time, or the
-    dataset stays decodable (finite fork over declarations the format supports and those it does not)."""
+    dataset stays decodable (finite fork over declarations the format supports and those it does not).
+    `str[2]` / `bytes[2]` are the variable-size types declared with a non-scalar shape."""
     from sedpack.io import Attribute, Dataset
-    shape = () if dtype in ("str", "bytes") else (2,)
-    if dtype == "str":
+    vector = dtype.endswith("[2]")
+    dtype = dtype[:-3] if vector else dtype
+    shape = () if (dtype in ("str", "bytes") and not vector) else (2,)
+    if vector and dtype == "str":
+        vals = [np.array(["héllo", ""]), np.array(["a", "bcd"])]
+    elif vector:
+        vals = [np.array([b"ab", b""]), np.array([b"a", b"bcd"])]
+    elif dtype == "str":
         vals = ["héllo", ""]
     elif dtype == "bytes":
         vals = [b"ab\x00c", b""]
@@ -208,8 +224,7 @@ def cells(tier):
     out = []
     for ft in (("fb", "npz") if tier == "quick" else ("fb", "npz", "tfrec")):
         out.append(dict(ft=ft, n=3, md=True))
-        if tier == "thorough":
-            out.append(dict(ft=ft, n=4, md=False))
+        out.append(dict(ft=ft, n=(4 if tier == "thorough" else 2), md=False))  # incl. the error leaving the with-block
         out.append(dict(ft=ft, declarations=True))
     return out
 
